@@ -149,6 +149,7 @@ type srvScen struct {
 	tokens   map[string][]tokIssue      // ip16 hex -> tokens issued
 	announced map[string]map[string]int // ih hex -> raw ip hex -> port
 	intro    map[string]bool            // id/addrkey introduced by a direct event
+	pendingPing map[string]bool         // addresses the node may be pinging because the harness called AddNode with a zero ID there
 	pendingTx map[string]bool           // addr|t of the server's own queries that are really outstanding (harness truth)
 	answered map[string]bool            // id@addr that really answered one of the server's own queries (harness truth)
 	expectW  int                        // datagrams expected so far
@@ -170,7 +171,7 @@ type tokIssue struct {
 }
 
 func (r *Run) newSrvScen(o srvOpts) *srvScen {
-	sc := &srvScen{r: r, o: o, mute: o.mute, tokens: map[string][]tokIssue{}, announced: map[string]map[string]int{}, intro: map[string]bool{}, answered: map[string]bool{}, pendingTx: map[string]bool{}, nextPt: 10000}
+	sc := &srvScen{r: r, o: o, mute: o.mute, tokens: map[string][]tokIssue{}, announced: map[string]map[string]int{}, intro: map[string]bool{}, answered: map[string]bool{}, pendingTx: map[string]bool{}, pendingPing: map[string]bool{}, nextPt: 10000}
 	sc.dead = r.c14Full()
 	sc.conn = newFakeConn(nil)
 	cfg := baseConfig(sc.conn)
@@ -696,6 +697,11 @@ func (sc *srvScen) inject(src *net.UDPAddr, raw []byte, kind string, q *qspec, e
 			if sc.isBlocked(w.Addr.IP) {
 				sc.viol("C19", "query datagram written to a blocklisted address")
 			}
+			if sameUDP(w.Addr, src) && !sc.pendingPing[dht.NewAddr(src).String()] {
+				// nothing the harness started is talking to this address: the node opened a query of its own
+				// towards the sender because of the datagram it has just received
+				sc.viol("C08", fmt.Sprintf("besides its answer the node sent a %s query of its own to the sender in reaction to the inbound datagram", d.q))
+			}
 			continue
 		}
 		mine = append(mine, w)
@@ -1050,6 +1056,9 @@ func (sc *srvScen) failedWriteThenReply(addr *net.UDPAddr, id [20]byte) {
 }
 
 func (sc *srvScen) addNode(addr *net.UDPAddr, id [20]byte) {
+	if id == ([20]byte{}) {
+		sc.pendingPing[dht.NewAddr(addr).String()] = true // AddNode with a zero ID pings the address in the background
+	}
 	before := sc.s.VerifTableSnapshot()
 	err := sc.s.AddNode(krpc.NodeInfo{ID: id, Addr: krpc.NodeAddr{IP: addr.IP, Port: addr.Port}})
 	_ = err
